@@ -146,6 +146,7 @@ type caseDoc struct {
 	Pipelnd bool   `json:"pipelined"`
 	MsgAPI  bool   `json:"msg_api"`
 	Ctx     bool   `json:"contexts"`
+	Fan     bool   `json:"two_receivers"`
 	RSeed   string `json:"rseed"`
 }
 
@@ -213,7 +214,19 @@ func runCase(t *rapid.T, cfg config) {
 	a, b := fixture.New(an), fixture.New(bn)
 	defer a.Close()
 	defer b.Close()
-	for _, s := range []mangos.Socket{a, b} {
+	// the broadcasting patterns may have a second receiver: one send then yields one receive on each,
+	// and the same message object goes out twice
+	fan := (pat.name == "pubsub" || pat.name == "bus" || pat.name == "star" || pat.name == "survey") && fixedSizes == nil && rapid.Bool().Draw(t, "twoReceivers")
+	doc.Fan = fan
+	socks := []mangos.Socket{a, b}
+	recvs := []mangos.Socket{b}
+	if fan {
+		b2 := fixture.New(bn)
+		defer b2.Close()
+		socks = append(socks, b2)
+		recvs = append(recvs, b2)
+	}
+	for _, s := range socks {
 		setOpt(t, s, mangos.OptionMaxRecvSize, limit)
 		_ = s.SetOption(mangos.OptionRecvDeadline, 10*time.Second)
 		_ = s.SetOption(mangos.OptionSendDeadline, 10*time.Second)
@@ -221,32 +234,37 @@ func runCase(t *rapid.T, cfg config) {
 	if pat.name == "survey" && !cfg.raw {
 		setOpt(t, a, mangos.OptionSurveyTime, 20*time.Second)
 	}
-	if bn == "sub" {
-		setOpt(t, b, mangos.OptionSubscribe, []byte{})
-	}
-	var err error
-	if flip {
-		_, err = fixture.Connect(b, a, cfg.tr)
-	} else {
-		_, err = fixture.Connect(a, b, cfg.tr)
-	}
-	if err != nil {
-		t.Fatalf("harness: connect %s: %v", cfg.name, err)
+	for _, rb := range recvs {
+		if bn == "sub" {
+			setOpt(t, rb, mangos.OptionSubscribe, []byte{})
+		}
+		var err error
+		if flip {
+			_, err = fixture.Connect(rb, a, cfg.tr)
+		} else {
+			_, err = fixture.Connect(a, rb, cfg.tr)
+		}
+		if err != nil {
+			t.Fatalf("harness: connect %s: %v", cfg.name, err)
+		}
 	}
 
 	// Where the pattern has contexts, a case may go through Context.Send/Recv instead of the socket.
 	useCtx := !cfg.raw && (pat.name == "reqrep" || pat.name == "survey" || pat.name == "pubsub") && rapid.Bool().Draw(t, "useContexts")
 	doc.Ctx = useCtx
-	handle := map[mangos.Socket]mangos.Context{a: a, b: b}
+	handle := map[mangos.Socket]mangos.Context{}
+	for _, s := range socks {
+		handle[s] = s
+	}
 	if useCtx {
-		for _, s := range []mangos.Socket{a, b} {
+		for _, s := range socks {
 			if c, err := s.OpenContext(); err == nil {
 				_ = c.SetOption(mangos.OptionRecvDeadline, 10*time.Second)
 				_ = c.SetOption(mangos.OptionSendDeadline, 10*time.Second)
 				if pat.name == "survey" {
 					_ = c.SetOption(mangos.OptionSurveyTime, 20*time.Second)
 				}
-				if s == b && bn == "sub" {
+				if s != a && bn == "sub" {
 					_ = c.SetOption(mangos.OptionSubscribe, []byte{})
 				}
 				handle[s] = c
@@ -316,6 +334,13 @@ func runCase(t *rapid.T, cfg config) {
 			if err != nil {
 				return
 			}
+			if fan {
+				_, got2, err2 := recv(recvs[1])
+				check("request at the second receiver", i, body, got2, err2)
+				if err2 != nil {
+					return
+				}
+			}
 			rbody := fixture.Payload(key+uint64(i)+1000, rsizes[i])
 			var rh []byte
 			if cfg.raw {
@@ -349,8 +374,15 @@ func runCase(t *rapid.T, cfg config) {
 				errc <- nil
 			}()
 			for i, body := range bodies {
-				_, got, err := recv(b)
-				check("pipelined", i, body, got, err)
+				var err error
+				for k, rb := range recvs {
+					var got []byte
+					_, got, err = recv(rb)
+					check(fmt.Sprintf("pipelined (receiver %d)", k), i, body, got, err)
+					if err != nil {
+						break
+					}
+				}
 				if err != nil {
 					break
 				}
@@ -364,10 +396,12 @@ func runCase(t *rapid.T, cfg config) {
 					fail("send-error", "message %d (len %d): %v", i, len(body), err)
 					return
 				}
-				_, got, err := recv(b)
-				check("lockstep", i, body, got, err)
-				if err != nil {
-					return
+				for k, rb := range recvs {
+					_, got, err := recv(rb)
+					check(fmt.Sprintf("lockstep (receiver %d)", k), i, body, got, err)
+					if err != nil {
+						return
+					}
 				}
 			}
 		}
@@ -377,6 +411,9 @@ func runCase(t *rapid.T, cfg config) {
 	stats.Eval()
 	stats.Class("tr:" + cfg.tr)
 	stats.Class("pat:" + pat.name)
+	if fan {
+		stats.Class("two_receivers")
+	}
 	nt := false
 	cls := map[int]bool{}
 	all := append([]int{}, sizes...)
